@@ -1,7 +1,12 @@
 PROP = {
     "claim": "Proof: in the cache model (translations abstracted to the guest bytes they were made from) every history of block fetches and "
              "bank switches hands the CPU the translation of the bytes currently mapped (warm_eq_cold, by induction with the coherence "
-             "invariant; bank-0 blocks never depend on the switchable bank: low_independent, which needed the region-end rule). Tie: the "
+             "invariant; bank-0 blocks never depend on the switchable bank: low_independent, which needed the region-end rule); INSIDE a "
+             "block (block_bank_stable_partial): a block whose stores all go to 0x8000 and above runs on the real bus exactly as on a bus "
+             "that forbids stores below 0x8000 (runOp_guard, all 90 Op variants), and the cartridge state in front of every one of its "
+             "instruction fetches is the one at block entry - so the translation made at entry is of the bytes mapped at every program "
+             "counter of the block; partial: blocks in the switchable bank that DO store below 0x8000 are the recorded finding, the two "
+             "kernel-evaluated examples show the boundary is sharp. Tie: the "
              "real Core::run_code_block of the jit build with a persistent cache, with a cache emptied before every block, and of the "
              "non-jit build run the same generated histories on multi-bank MBC1/MBC3 ROMs whose banks differ at equal addresses; "
              "registers/bank after every block must agree three ways and hit/miss/bytes_translated follow the model's key discipline.",
@@ -11,7 +16,7 @@ PROP = {
     "technique": "Lean 4 invariant proof over fetch histories of a cache model + three-way differential (warm / cold / interpreter) across builds",
     "gen": ["gen_decoder.py", "gen_ops.py"],
     "streams": [{"name": "c03", "join": True, "shards": {"quick": 2, "thorough": 16}}],
-    "modules": ["GbVerif.Model.Cache", "GbVerif.Model.Cpu", "GbVerif.Proofs.Enum"],
+    "modules": ["GbVerif.Model.Cache", "GbVerif.Model.Cpu", "GbVerif.Proofs.Enum", "GbVerif.Proofs.InterpMono", "GbVerif.Proofs.InterpFrame", "GbVerif.Proofs.CartFrame"],
     "rule": "4 cartridges (MBC1 64 banks, MBC3 32, MBC1 4, MBC3 128) x 75 (thorough 2500) histories of 10..130 (410) operations: jump to an "
             "entry (bank-0 blocks, bank-switching trampolines in bank 0, blocks at equal addresses in every bank, a block running up to "
             "0x3FFF, and in one history of five trampolines inside the switchable bank), run a block, write a bank register; "
